@@ -26,3 +26,5 @@ pub mod c11;
 pub mod c12;
 #[cfg(feature = "c13")]
 pub mod c13;
+#[cfg(feature = "c16")]
+pub mod c16;
